@@ -229,6 +229,8 @@ func init() {
 			obs = append(obs, c.ListProgress()...)
 			obs = append(obs, c.UnknownListTagRefused("nbt", "nbt/dynbt")...)
 			obs = append(obs, c.InterfaceAndNilTargets("nbt")...)
+			// a prefix is not taken for a document: read errors (io.EOF included) are not dropped
+			obs = append(obs, c.ErrFlow(in, in)...)
 			obs = append(obs, c.SignCheckBeforeSuccess(in)...)
 			obs = append(obs, filterObs(c.RawRead(), func(o core.Ob) bool { return strings.HasPrefix(o.Key, "nbt.") || strings.HasPrefix(o.Key, "nbt/") })...)
 			obs = append(obs, c.StringIndexGuards(in)...)
